@@ -1197,6 +1197,41 @@ func runCompPlan(t *testing.T, planAny any, ctl Ctl) *Result {
 			return st
 		}
 		settle := func() { s.WaitUntil("harness:settle", time.Now().Add(time.Millisecond)) }
+		// At every step of the schedule, what the components would read is a configuration the proxy
+		// can run under: a value that is going to be refused must not be in force even for a moment
+		// (a cleanup cycle or a late notification handler that falls into that moment acts on it).
+		unworkableSeen := ""
+		s.OnStep = func(step int) {
+			if unworkableSeen != "" {
+				return
+			}
+			s.Exempt()
+			lim, iv, pct, sh := cfg.Cache.MaxCacheSize.Read().Bytes(), cfg.Cache.CleanupInterval.Read().Cast(), cfg.Cache.Memory.MemoryBudgetPercent.Read(), cfg.Cache.LockShards.Read()
+			lst, dir := cfg.Proxy.Listen.Read(), cfg.Cache.File.Dir.Read()
+			s.Unexempt()
+			switch {
+			case lim <= 0:
+				unworkableSeen = fmt.Sprintf("cache.max_cache_size=%d", lim)
+			case iv <= 0:
+				unworkableSeen = fmt.Sprintf("cache.cleanup_interval=%v", iv)
+			case pct < 0 || pct > 100:
+				unworkableSeen = fmt.Sprintf("cache.memory.memory_budget_percent=%d", pct)
+			case sh < 1:
+				unworkableSeen = fmt.Sprintf("cache.lock_shards=%d", sh)
+			case lst == "":
+				unworkableSeen = "proxy.listen empty"
+			case dir == "":
+				unworkableSeen = "cache.file.dir empty"
+			}
+			if unworkableSeen != "" {
+				unworkableSeen += fmt.Sprintf(" at step %d", step)
+			}
+		}
+		defer func() {
+			if unworkableSeen != "" {
+				res.violate("C18.a", "unworkable-value-in-force: "+strings.SplitN(unworkableSeen, "=", 2)[0], "while the updates were applied the running configuration held %s, a value no accepted update ever set [history: %s]", unworkableSeen, history)
+			}
+		}()
 		cacheDestroyed, loggerDestroyed := false, false
 		var destroyedState [3]int64
 		var callsAtDestroy int
